@@ -4,6 +4,7 @@ mod device;
 mod dhcpdns;
 mod mk;
 mod runner;
+mod scen_peer;
 mod scen_tcp;
 mod tap;
 mod tape;
@@ -18,6 +19,13 @@ fn tcp_safety(t: &mut Tape, p: Props, thorough: bool, trace: bool) -> Outcome {
 }
 fn tcp_liveness(t: &mut Tape, p: Props, thorough: bool, trace: bool) -> Outcome {
     scen_tcp::run(t, p, &scen_tcp::Params { liveness: true, thorough, force_medium: None }, trace)
+}
+
+fn peer_receiver(t: &mut Tape, p: Props, thorough: bool, trace: bool) -> Outcome {
+    scen_peer::run_receiver(t, p, thorough, trace)
+}
+fn peer_sender(t: &mut Tape, p: Props, thorough: bool, trace: bool) -> Outcome {
+    scen_peer::run_sender(t, p, thorough, trace)
 }
 
 const REAL: &str = "smoltcp::iface::Interface, SocketSet, all socket types used by the scenario, wire, storage, iface::{neighbor,route,fragmentation} - built from /repo's working tree";
@@ -55,9 +63,20 @@ fn defs() -> &'static [CheckDef] {
             CheckDef {
                 id: "C05",
                 props: Props::of(&["C05"]),
-                scens: vec![Scen { name: "tcp-pair-safety", weight: 1, run: tcp_safety }, Scen { name: "tcp-pair-liveness", weight: 1, run: tcp_liveness }],
+                scens: vec![Scen { name: "tcp-pair-safety", weight: 1, run: tcp_safety }, Scen { name: "tcp-pair-liveness", weight: 1, run: tcp_liveness }, Scen { name: "tcp-peer-sender", weight: 2, run: peer_sender }],
                 rule: "wire monitor on every segment emitted by both real endpoints; non-trivial = fault fired AND retransmission/out-of-order AND >= 1000 bytes; distinct = event-log hash",
                 assumptions: vec!["in two-node runs ACKs are reordered, so the window bound is the sound relaxation max over delivered ACKs of ack+win", "window-field bounds only with max_burst_size = None"],
+                real: REAL,
+                stub: STUB,
+                quick_s: 20.0,
+                thorough_s: 600.0,
+            },
+            CheckDef {
+                id: "C04",
+                props: Props::of(&["C04"]),
+                scens: vec![Scen { name: "tcp-peer-receiver", weight: 1, run: peer_receiver }],
+                rule: "one run = one real TCP socket facing a scripted peer that sends tape-chosen segments placed relative to the victim's current window (left, straddling, in sequence, inside, at/over the right edge), with/without FIN, valid/stale ACK fields, interleaved with reads and time; non-trivial = >= 3 segments and at least one overlapping/out-of-order or beyond-window segment; distinct = event-log hash",
+                assumptions: vec!["the peer is consistent: the byte at sequence number s is a fixed function of s and FIN sits at one fixed position", "max_burst_size = None"],
                 real: REAL,
                 stub: STUB,
                 quick_s: 20.0,
